@@ -60,7 +60,7 @@ BOUNDS = {
     'T0': (0, 0, '.TIMES(0)'),
 }
 # return kinds (sim::RK)
-RK = ['NONE', 'VAL', 'LRVAL', 'THROW_STD', 'THROW_INT', 'REF_PARAM', 'REF_CELL', 'STR', 'LRSTR', 'CREF_PARAM', 'CREF_CELL', 'CREF_CAPT', 'STR_PARAM', 'LRSTR_VAR', 'PAIR', 'LRPAIR_VAR']
+RK = ['NONE', 'VAL', 'LRVAL', 'THROW_STD', 'THROW_INT', 'REF_PARAM', 'REF_CELL', 'STR', 'LRSTR', 'CREF_PARAM', 'CREF_CELL', 'CREF_CAPT', 'STR_PARAM', 'LRSTR_VAR', 'PAIR', 'LRPAIR_VAR', 'LRTHROW_VAR']
 
 
 def matcher_text(kind, argk, vi):
@@ -178,9 +178,9 @@ def gen_shape(rng, sid, fn, force=None):
     if forbidding:
         rk = 'NONE'
     elif f['ret'] == 'void':
-        rk = rng.choice(['NONE', 'NONE', 'NONE', 'THROW_STD', 'THROW_INT'])
+        rk = rng.choice(['NONE', 'NONE', 'NONE', 'THROW_STD', 'THROW_INT', 'LRTHROW_VAR'])
     elif f['ret'] == 'int':
-        rk = rng.choice(['VAL'] * 5 + ['LRVAL'] * 2 + ['THROW_STD', 'THROW_INT'])
+        rk = rng.choice(['VAL'] * 5 + ['LRVAL'] * 2 + ['THROW_STD', 'THROW_INT', 'LRTHROW_VAR'])
     elif f['ret'] == 'ref':
         rk = rng.choice(['REF_PARAM', 'REF_CELL', 'REF_CELL', 'THROW_STD'])
     elif f['ret'] == 'pair':
@@ -264,6 +264,7 @@ def render(d, scoped=False):
                 'LRVAL': '.LR_RETURN(sim::ret(x.id, x.snap, %s))' % addr,
                 'THROW_STD': '.THROW(sim::thr_std(x.id, %s))' % snap_plain,
                 'THROW_INT': '.THROW(sim::thr_int(x.id, x.snap))',
+                'LRTHROW_VAR': '.LR_THROW(sim::thr_var(x.id, x.snap, x.exc))',
                 'REF_PARAM': '.LR_RETURN(sim::retref(x.id, x.snap, _1, %s))' % addr,
                 'REF_CELL': '.LR_RETURN(sim::retref(x.id, x.snap, *x.cell, %s))' % addr,
                 'CREF_PARAM': '.RETURN(sim::retcref(x.id, x.snap, _1, %s))' % addr,
